@@ -57,6 +57,13 @@ def make_events(env, sink, trig, count, filt_kinds, conds):
             ef = (lambda c: (lambda d: c))(cond)
         elif fk == 'rewrite':
             ef = lambda d: {**d, 'extra': 7, 'value': (d['value'], 'w')}
+        elif fk == 'empty':
+            ef = lambda d: {}           # accepted: a mapping replaces the data - the handler gets no items at all
+        elif fk == 'inplace':
+            def ef(d):                  # edits the delivery's own dict and returns a plain true value
+                d['extra'] = 7
+                del d['previous']
+                return 1
         out.append((edzed.Event(name, f'ev_{name}', efilter=ef), name, fk, cond))
     return out
 
@@ -65,6 +72,10 @@ def expected_entry(pname, fk, prev, val, sender):
     data = {'previous': prev, 'value': val, 'source': sender, 'trigger': 'output'}
     if fk == 'rewrite':
         data = {**data, 'extra': 7, 'value': (val, 'w')}
+    elif fk == 'empty':
+        data = {}
+    elif fk == 'inplace':
+        data = {'value': val, 'source': sender, 'trigger': 'output', 'extra': 7}
     return (pname, f'ev_{pname}', data)
 
 
@@ -88,8 +99,8 @@ def scen_sym(env, sender, n, n_out, n_every):
     circ = sync_circuit()
     sink = []
     conds = {}
-    fk_out = [env.pick(['none', 'pass', 'reject-sym', 'rewrite'], f'fo{i}') for i in range(n_out)]
-    fk_every = [env.pick(['none', 'reject-sym', 'rewrite'], f'fe{i}') for i in range(n_every)]
+    fk_out = [env.pick(['none', 'pass', 'reject-sym', 'rewrite', 'empty', 'inplace'], f'fo{i}') for i in range(n_out)]
+    fk_every = [env.pick(['none', 'reject-sym', 'rewrite', 'empty', 'inplace'], f'fe{i}') for i in range(n_every)]
     form = env.choose(3, 'form')
     evs_out = make_events(env, sink, 'o', n_out, fk_out, conds)
     evs_every = make_events(env, sink, 'e', n_every, fk_every, conds) if sender != 'cblock' else []
@@ -199,7 +210,7 @@ def shards(tier):
                 n = b['assignments'] if n_out + n_every <= 3 else b['assignments'] - 1
                 out.append({'name': f'sym {sender} out={n_out} every={n_every} n={n}', 'scenario': 'scen_sym',
                             'params': {'sender': sender, 'n': n, 'n_out': n_out, 'n_every': n_every},
-                            'cost': 4 ** (n_out + n_every)})
+                            'cost': 6 ** (n_out + n_every)})
     for sender in ('settable', 'cblock'):
         out.append({'name': f'pool {sender}', 'scenario': 'scen_pool',
                     'params': {'sender': sender, 'n': b['pool_assignments']}, 'cost': 50})
